@@ -5,7 +5,7 @@
    silently; `Print Assumptions` lists the axioms it depends on (none are declared by this development). *)
 From Coq Require Import NArith List Bool String.
 From Octo Require Import Base.Bytes Crypto.Prims Lib.Framed Lib.Canon Model.Address Model.NonceGen Model.SsChunk Model.SsTcp Model.Trojan Model.Socks5 Model.Http Generated.Params Generated.Shared
-  Proofs.AddressFacts Proofs.NonceFacts Proofs.SsChunkRoundtrip Proofs.SsChunkCanon Proofs.SsTcpSafety Proofs.SsTcpRoundtrip Proofs.CodecLemmas Proofs.TrojanFacts Proofs.Socks5Facts Proofs.HttpFacts Model.Vmess Proofs.VmessSafety Proofs.VmessFacts Model.SsUdp Proofs.SsUdpFacts Proofs.SsChunkTamper.
+  Proofs.AddressFacts Proofs.NonceFacts Proofs.SsChunkRoundtrip Proofs.SsChunkCanon Proofs.SsTcpSafety Proofs.SsTcpRoundtrip Proofs.CodecLemmas Proofs.TrojanFacts Proofs.Socks5Facts Proofs.HttpFacts Model.Vmess Proofs.VmessSafety Proofs.VmessFacts Model.SsUdp Proofs.SsUdpFacts Proofs.SsChunkTamper Proofs.VmessTamper Proofs.SsUdpTamper.
 Import ListNotations.
 Set Printing Width 200.
 
@@ -38,6 +38,37 @@ Definition C06_vmess_no_user_no_service := @vmess_no_user_no_service.
 (* Shadowsocks stream: a decoder under whose key nothing was sealed releases nothing *)
 Definition C06_ss_no_credential_no_release := @reflection_rejected.
 
+(* VMess under an ideal AEAD: the server leaves SInit (target known, body codec created) only if both sealed parts of the request header are honest units under keys derived from a REGISTERED user id, with the auth id of the request as associated data *)
+Definition C06_vmess_header_accept_is_honest := @vm_header_accept_is_honest.
+(* VMess: if nothing the peer can produce opens under a key derived from a registered user id, the server never dials a target *)
+Definition C06_vmess_no_user_key_no_target := @vm_no_user_key_no_target.
+(* SS UDP: if nothing on the wire opens under keys derivable from the configured PSK / registered user keys (another PSK, an unregistered user), no datagram is ever accepted *)
+Definition C06_ssudp_wrong_key_datagram_refused := @wrong_key_datagram_refused.
+(* SS UDP: ... and the session codec never yields an item to forward *)
+Definition C06_ssudp_wrong_key_never_item := @wrong_key_session_decode_never_some.
+(* SS UDP: the AEAD part of every accepted datagram is an honest unit under a key derived from the configured secrets *)
+Definition C06_ssudp_accepted_is_sealed := @accepted_is_sealed.
+(* SS UDP 2022 multi-user: an accepted datagram is attributed to the REGISTERED user its identity header (under the server key) selects, and was sealed under THAT user key *)
+Definition C06_ssudp_accepted_multiuser_attributed := @accepted_multiuser_attributed.
+(* SS UDP 2022 multi-user: attribution to user u implies the unit was sealed under the key of u -- never decrypted or attributed under another user key *)
+Definition C06_ssudp_user_separation := @user_separation.
+(* SS UDP 2022 multi-user: an identity header selecting no registered user is refused (EBadUser) before any AEAD key is derived *)
+Definition C06_ssudp_unregistered_identity_refused := @unregistered_identity_refused.
+(* non-vacuity: user separation instantiated with the ideal AEAD *)
+Definition C06_ssudp_nonvacuous_user_separation := @UdpTamperExamples.ideal_user_separation.
+(* non-vacuity: a decoder configured with another PSK accepts nothing *)
+Definition C06_ssudp_nonvacuous_wrong_key := @UdpTamperExamples.ideal_wrong_key_xc.
+
+Check @C06_vmess_header_accept_is_honest.
+Check @C06_vmess_no_user_key_no_target.
+Check @C06_ssudp_wrong_key_datagram_refused.
+Check @C06_ssudp_wrong_key_never_item.
+Check @C06_ssudp_accepted_is_sealed.
+Check @C06_ssudp_accepted_multiuser_attributed.
+Check @C06_ssudp_user_separation.
+Check @C06_ssudp_unregistered_identity_refused.
+Check @C06_ssudp_nonvacuous_user_separation.
+Check @C06_ssudp_nonvacuous_wrong_key.
 Check @C06_vmess_requires_user.
 Check @C06_vmess_no_user_no_service.
 Check @C06_ss_no_credential_no_release.
@@ -58,3 +89,13 @@ Print Assumptions C06_trojan_errors.
 Print Assumptions C06_vmess_requires_user.
 Print Assumptions C06_vmess_no_user_no_service.
 Print Assumptions C06_ss_no_credential_no_release.
+Print Assumptions C06_vmess_header_accept_is_honest.
+Print Assumptions C06_vmess_no_user_key_no_target.
+Print Assumptions C06_ssudp_wrong_key_datagram_refused.
+Print Assumptions C06_ssudp_wrong_key_never_item.
+Print Assumptions C06_ssudp_accepted_is_sealed.
+Print Assumptions C06_ssudp_accepted_multiuser_attributed.
+Print Assumptions C06_ssudp_user_separation.
+Print Assumptions C06_ssudp_unregistered_identity_refused.
+Print Assumptions C06_ssudp_nonvacuous_user_separation.
+Print Assumptions C06_ssudp_nonvacuous_wrong_key.
